@@ -2,7 +2,7 @@
    Only statements here; proofs live in Proofs/SplitProofs.v.  Model: Model/Split.v
    (splitMessage, Event.split, Join/List, MaxEventLength) and Model/State.v
    (handle_isupport); specification vocabulary: Spec/SplitSpec.v. *)
-Require Import Bytes Utf8 AMap WireOut State Split SplitSpec SplitProofs.
+Require Import Bytes Utf8 AMap WireOut Ctcp State Split SplitSpec SplitProofs.
 
 (* splitMessage returns for every text and every width (also <= 0): no slice is out of
    range and the word loop terminates (Panic also stands for "out of fuel"). *)
@@ -13,6 +13,48 @@ Print Assumptions C11_no_panic.
 Theorem C11_event_no_panic : forall e max, event_split e max <> Panic.
 Proof. exact event_split_no_panic. Qed.
 Print Assumptions C11_event_no_panic.
+
+(* Every piece of splitMessage is at most w bytes; when w < 4 (less than the longest
+   character) a piece may instead be at most 4 bytes (the code puts one character on it). *)
+Theorem C11_fits_message : forall text w ps, split_message text w = Ok ps ->
+  Forall (fun p => (Zlen p <= w)%Z \/ ((w < 4)%Z /\ (Zlen p <= 4)%Z)) ps.
+Proof. exact split_message_fits. Qed.
+Print Assumptions C11_fits_message.
+
+(* Event.split: when command and target (cmd_target_len: "COMMAND target :" plus tag
+   overhead, plus the CTCP frame and its one reserved byte) fit, every piece is at most
+   max bytes in the measure of Event.LenOpts without the source; in the boundary case
+   max - cmd_target_len < 4 a piece may instead carry one character, i.e. be at most
+   cmd_target_len + 4 bytes.  All texts: control codes, multi-byte, invalid UTF-8,
+   newlines, CTCP. *)
+Theorem C11_fits : forall e max es, event_split e max = Ok es ->
+  se_params e <> [] -> is_msg_cmd (se_command e) = true -> (cmd_target_len e <= max)%Z ->
+  Forall (fun p => (Z.of_nat (len_nosrc p) <= max)%Z \/
+                   ((max - cmd_target_len e < 4)%Z /\ (Z.of_nat (len_nosrc p) <= cmd_target_len e + 4)%Z)) es.
+Proof. exact event_split_fits. Qed.
+Print Assumptions C11_fits.
+
+(* ... and the bytes written for a tag-less event are at most that measure (plus the
+   source, which Commands.Message/Notice/Action never set). *)
+Theorem C11_fits_wire : forall e, se_tagov e = 0%nat -> (length (event_bytes e) <= len_opts e)%nat.
+Proof. exact event_bytes_length. Qed.
+Print Assumptions C11_fits_wire.
+
+(* Pieces keep command, source, tags, every parameter but the last, and the CTCP frame
+   with the same CTCP command; their payloads are splitMessage of the (CTCP) text. *)
+Theorem C11_shape : forall e max es, event_split e max = Ok es ->
+  es = [e] \/
+  (se_params e <> [] /\ is_msg_cmd (se_command e) = true /\
+   exists text wrap w pieces,
+     split_message text w = Ok pieces /\
+     es = List.map (fun q => with_params e (set_last (se_params e) (wrap q))) pieces /\
+     Forall (same_frame e) es /\
+     match ctcp_of e with
+     | Some c => text = Ctcp.c_text c /\ wrap = ctcp_wrap (Ctcp.c_command c) /\ w = (max - cmd_target_len e)%Z
+     | None => text = last (se_params e) [] /\ wrap = (fun q => q) /\ w = (max - cmd_target_len e)%Z
+     end).
+Proof. exact event_split_shape. Qed.
+Print Assumptions C11_shape.
 
 (* Join: every channel exactly once and in order ... *)
 Theorem C11_join : forall chans mel,
